@@ -72,6 +72,13 @@ func c18Commands(u c18Unit) (cmds [][]string, keys [][]string, txn bool) {
 		return [][]string{{"BITOP", "AND", k[0], k[1]}}, [][]string{{k[0], k[1]}}, false
 	case "eval":
 		return [][]string{{"EVAL", "return 1", "2", k[0], k[1], "arg"}}, [][]string{{k[0], k[1]}}, false
+	case "evalA":
+		// preceded (see c18Prelude) by an EVAL of the same arity with ONE key: key positions depend
+		// on the numkeys argument, not on (command, arity)
+		return [][]string{{"EVAL", "return 1", "2", k[0], k[1], "arg"}}, [][]string{{k[0], k[1]}}, false
+	case "evalB":
+		// preceded by an EVAL of the same arity with TWO keys; here k[1] is an argument, not a key
+		return [][]string{{"EVAL", "return 1", "1", k[0], k[1], "arg"}}, [][]string{{k[0]}}, false
 	case "foo":
 		// unknown to the static table: resolved through COMMAND GETKEYS (first argument)
 		return [][]string{{"FOO.SET", k[0], "v"}}, [][]string{{k[0]}}, false
@@ -112,6 +119,12 @@ func c18Exec(t *testing.T, scn c18Scenario) mc.Result {
 		var raw []byte
 		add := func(c []string) { raw = append(raw, redisd.EncodeCommandS(c...)...) }
 		add([]string{"SET", "before{t}", "1"})
+		switch scn.Unit.Kind {
+		case "evalA":
+			add([]string{"EVAL", "return 1", "1", "pre{t}", "x", "arg"})
+		case "evalB":
+			add([]string{"EVAL", "return 1", "2", "pre{t}", "pre2{t}", "arg"})
+		}
 		cmds, keys, _ := c18Commands(scn.Unit)
 		for _, c := range cmds {
 			add(c)
@@ -317,7 +330,7 @@ func runC18(t *testing.T, rep *mc.Reporter) {
 	for _, k := range pool {
 		units = append(units, c18Unit{"set", []string{k}}, c18Unit{"foo", []string{k}})
 	}
-	for _, kind := range []string{"del", "mset", "rename", "smove", "bitop", "eval", "txn", "txndel", "txnflt"} {
+	for _, kind := range []string{"del", "mset", "rename", "smove", "bitop", "eval", "evalA", "evalB", "txn", "txndel", "txnflt"} {
 		for _, a := range pool {
 			for _, b := range pool {
 				units = append(units, c18Unit{kind, []string{a, b}})
